@@ -33,6 +33,30 @@ func (en *Engine) contractFor(fn *ssa.Function) (*FuncContract, *PkgContracts) {
 	return nil, nil
 }
 
+func (en *Engine) lookupGlobal(pkgPath, name string) *ssa.Global {
+	p := en.pkgs[pkgPath]
+	if p == nil {
+		return nil
+	}
+	if m, ok := p.Members[name]; ok {
+		if g, ok := m.(*ssa.Global); ok {
+			return g
+		}
+	}
+	return nil
+}
+
+func (en *Engine) findAxiom(name string) (*AxiomDecl, *PkgContracts) {
+	for _, pc := range en.contractOrder() {
+		for i := range pc.Axioms {
+			if pc.Axioms[i].Name == name {
+				return &pc.Axioms[i], pc
+			}
+		}
+	}
+	return nil, nil
+}
+
 func (en *Engine) goConst(pkgPath, name string) (Value, bool) {
 	p, ok := en.pkgs[pkgPath]
 	if !ok {
@@ -210,7 +234,7 @@ func (en *Engine) callFunction(st *State, f *Frame, x *ssa.Call, fn *ssa.Functio
 	if r, ok := en.intrinsic(st, f, x, fn, name, args, pos); ok {
 		return r
 	}
-	if fc, pc := en.contractFor(fn); fc != nil && !en.forceInline[name] {
+	if fc, pc := en.contractFor(fn); fc != nil && !en.forceInline[name] && !en.inlineNames[fn.Name()] {
 		return en.applyContract(st, f, x, fn, fc, pc, args, pos)
 	}
 	if fn.Blocks == nil {
@@ -470,6 +494,17 @@ func (en *Engine) applyContract(st *State, f *Frame, x *ssa.Call, fn *ssa.Functi
 	if len(problems) > 0 || !aliasAllowed(fc, part) {
 		en.flushSide(st)
 		en.addObl(st, "alias@"+short, False(), fmt.Sprintf("argument aliasing %v %v is not among the alias patterns the contract of %s was verified for", part, problems, short), pos)
+	}
+	for pn, gname := range fc.Binds {
+		gv := en.lookupGlobal(fn.Pkg.Pkg.Path(), gname)
+		ok := false
+		if pv, isP := env[pn].(PtrV); isP && gv != nil && pv.R == en.globalRegion(gv) && len(pv.Path) == 0 {
+			ok = true
+		}
+		if !ok {
+			en.flushSide(st)
+			en.addObl(st, "pre@"+short, False(), fmt.Sprintf("argument %s of %s must be &%s (the contract is verified for that table only)", pn, short, gname), pos)
+		}
 	}
 	oldMem := make(map[*Region]Cell, len(st.mem))
 	for k, v := range st.mem {
